@@ -41,6 +41,14 @@ def configs(tier, seed):
                     params = {"n": 12}
                 out.append({"name": "rec-%s-%s-d%d-T%d" % (algo, part, d, T), "algo": algo, "part": part, "d": d, "T": T, "params": params,
                             "cost": T * d * arity(part, d)})
+    # the same runs with a recommendation query between every pull and its receive_reward (a legal call order: a user peeking
+    # at the incumbent while the evaluation is running); the query after the round must still be the best evaluated point
+    for algo, Ts in T_OF.items():
+        if algo in ("DOO", "SOO", "SequOOL", "StoSOO"):
+            for part in ("B", "K3"):
+                T = c01.rounds_override(algo, part, 1, Ts[q], q)
+                out.append({"name": "rec-%s-%s-d1-T%d-peek" % (algo, part, T), "algo": algo, "part": part, "d": 1, "T": T, "params": {"n": 12} if algo == "SequOOL" else {},
+                            "peek": True, "cost": T * arity(part, 1)})
     out.append({"name": "rec-StoSOO-B-d1-T9-k1-hmax2", "algo": "StoSOO", "part": "B", "d": 1, "T": 9, "params": {"k": 1, "h_max": 2}})
     out.append({"name": "rec-StoSOO-K3-d1-T6-k1-hmax1", "algo": "StoSOO", "part": "K3", "d": 1, "T": 6, "params": {"k": 1, "h_max": 1}})
     out.append({"name": "rec-StoSOO-B-d1-T7-k3", "algo": "StoSOO", "part": "B", "d": 1, "T": 7, "params": {"k": 3}})
@@ -73,10 +81,13 @@ class Recommend(Observer):
         self.led = Ledger(compare=False)
         self.led.start(ctx, cfg, algo, dom)
         self.evaluated = []  # (point object, reward, cell)
+        self.peek = bool(cfg.get("peek"))
 
     def after_pull(self, t, p):
         self.led.after_pull(t, p)
         self.cur_p = p
+        if self.peek:
+            self.ctx.soft_call(self.algo.get_last_point)
 
     def after_reward(self, t, r):
         self.led.after_reward(t, r)
